@@ -145,5 +145,10 @@ impl FeoxStore {
     }
     // unit update_path: swaps only on the generation `expected`, with a strictly newer timestamp
     #[verifier::external_body]
-    pub fn replace_record_if_current(&self, key: &[u8], expected: &Arc<Record>, new_value: &[u8], timestamp: (u64, bool), ttl_seconds: u64, start: InstantH) -> Result<bool> { unimplemented!() }
+    pub fn replace_record_if_current(&self, key: &[u8], expected: &Arc<Record>, new_value: &[u8], timestamp: (u64, bool), ttl_seconds: u64, start: InstantH) -> Result<bool>
+        // C01: the swap helper validates nothing itself - whatever value reaches it has passed the callers' size validation (validate_key_value) or is a fixed-size counter
+        requires 1 <= new_value@.len() <= 0x1000_0000,
+    {
+        unimplemented!()
+    }
 }
